@@ -730,6 +730,7 @@ def r16_7(rep: Report, idx: Index) -> None:
 
     def manifest_selection(atoms: set[str]):
         eq = lt = gt = isint = None
+        mirror = {ast.Lt: ast.Gt, ast.Gt: ast.Lt, ast.LtE: ast.GtE, ast.GtE: ast.LtE}
         for t in sorted(atoms):
             try:
                 e = ast.parse(t, mode='eval').body
@@ -747,17 +748,29 @@ def r16_7(rep: Report, idx: Index) -> None:
                 eq = t
             begin = r"options\.availabilityStartTime\.replace\(hour=(\w+)\.hour, minute=\1\.minute, second=\1\.second\)"
             import re as _re
-            if isinstance(e.ops[0], ast.Lt) and rl.endswith(".now") and 'publish' not in rl.lower() \
-                    and _re.fullmatch(begin, rr):
-                lt = t
-            if isinstance(e.ops[0], ast.Gt) and rl.endswith(".now") and 'publish' not in rl.lower() \
-                    and _re.fullmatch(begin + r" \+ datetime\.timedelta\(seconds=options\.minimumUpdatePeriod\)", rr):
-                gt = t
+            # read every order comparison with the request clock on the left: `begin <= now` is `now >= begin`,
+            # and that is the negation of `now < begin`
+            op = type(e.ops[0])
+            if op in mirror and rr.endswith('.now') and not rl.endswith('.now'):
+                rl, rr, op = rr, rl, mirror[op]
+            if not (op in mirror and rl.endswith('.now') and 'publish' not in rl.lower()):
+                continue
+            end = begin + r" \+ datetime\.timedelta\(seconds=options\.minimumUpdatePeriod\)"
+            if _re.fullmatch(begin, rr):
+                if op is ast.Lt:
+                    lt = ('atom', t)
+                elif op is ast.GtE:
+                    lt = f_not(('atom', t))
+            if _re.fullmatch(end, rr):
+                if op is ast.Gt:
+                    gt = ('atom', t)
+                elif op is ast.LtE:
+                    gt = f_not(('atom', t))
         window_ok.append(lt is not None and gt is not None)
         if eq is None or isint is None or lt is None or gt is None:
             return None
         return f_or(f_and(('atom', isint), ('atom', eq)),
-                    f_and(f_not(('atom', isint)), f_not(('atom', lt)), f_not(('atom', gt))))
+                    f_and(f_not(('atom', isint)), f_not(lt), f_not(gt)))
     _synthetic_error_paths(rep, rid, mconstruct, mf, manifest_selection)
     if window_ok and window_ok[-1]:
         rep.ok(rid, mconstruct, 'time window test', 'tm <= now <= tm + minimumUpdatePeriod, tm from the start option')
